@@ -523,7 +523,22 @@ func call(i *interpreter, caller *frame, callpos token.Pos, fn value, args []val
 
 // nativeClosure is a func value implemented by the engine.
 type nativeClosure struct {
-	f func(fr *frame, args []value) value
+	f    func(fr *frame, args []value) value
+	name string
+}
+
+func funcName(fn value) string {
+	switch f := fn.(type) {
+	case *ssa.Function:
+		if f != nil {
+			return f.String()
+		}
+	case *closure:
+		return f.Fn.String()
+	case *nativeClosure:
+		return f.name
+	}
+	return "?"
 }
 
 func fnPkg(fn *ssa.Function) *ssa.Package {
